@@ -31,6 +31,7 @@ use rustc_middle::mir::{
     self, AggregateKind, AssertKind, BasicBlock, Body, Const, Operand, Place, PlaceElem, Rvalue,
     StatementKind, TerminatorKind, UnwindAction,
 };
+use rustc_middle::ty::TypeVisitableExt;
 use rustc_middle::ty::print::with_no_trimmed_paths;
 use rustc_middle::ty::{self, Ty, TyCtxt};
 use rustc_span::Span;
@@ -420,6 +421,30 @@ impl<'a, 'tcx> Cx<'a, 'tcx> {
                 return o;
             }
         }
+        // arrays of integers (named consts / statics used as lookup tables): evaluate and dump the elements
+        {
+            let (arr_ty, is_ref) = match ty.kind() {
+                ty::Ref(_, t, _) => (*t, true),
+                _ => (ty, false),
+            };
+            let elem_len: Option<(Ty<'tcx>, Option<u64>)> = match arr_ty.kind() {
+                ty::Array(e, n) => Some((*e, n.try_to_target_usize(tcx))),
+                ty::Slice(e) if is_ref => Some((*e, None)),
+                _ => None,
+            };
+            if let Some((ety, n)) = elem_len {
+                if (ety.is_integral() || ety.is_bool() || ety.is_char()) && !c.has_non_region_param() {
+                    if let Ok(cv) = c.eval(tcx, self.env, rustc_span::DUMMY_SP) {
+                        if let Some(vals) = self.read_int_array(cv, ety, n, is_ref) {
+                            o.put("elem_ty", J::s(ty_str(ety)));
+                            o.put("is_ref", J::Bool(is_ref));
+                            o.put("array", J::Arr(vals));
+                            return o;
+                        }
+                    }
+                }
+            }
+        }
         if let Const::Val(cv, _) = c {
             if let mir::ConstValue::Slice { .. } = cv {
                 let is_str = matches!(ty.kind(), ty::Ref(_, t, _) if t.is_str());
@@ -437,6 +462,60 @@ impl<'a, 'tcx> Cx<'a, 'tcx> {
         }
         o.put("opaque", J::s(with_no_trimmed_paths!(format!("{}", c))));
         o
+    }
+
+    /// elements of an integer array constant (by value: Indirect allocation; by reference: pointer to an allocation or static)
+    fn read_int_array(&self, cv: mir::ConstValue, ety: Ty<'tcx>, n: Option<u64>, is_ref: bool) -> Option<Vec<J>> {
+        let tcx = self.tcx;
+        let esize = tcx.layout_of(self.env.as_query_input(ety)).ok()?.size.bytes() as usize;
+        if esize == 0 || esize > 16 {
+            return None;
+        }
+        let (alloc_id, offset, count): (mir::interpret::AllocId, usize, Option<u64>) = match cv {
+            mir::ConstValue::Indirect { alloc_id, offset } if !is_ref => (alloc_id, offset.bytes() as usize, n),
+            mir::ConstValue::Slice { alloc_id, meta } if is_ref => (alloc_id, 0, Some(meta)),
+            mir::ConstValue::Scalar(mir::interpret::Scalar::Ptr(ptr, _)) if is_ref => {
+                let (prov, off) = ptr.into_raw_parts();
+                (prov.alloc_id(), off.bytes() as usize, n)
+            }
+            _ => return None,
+        };
+        let count = count? as usize;
+        if count > 65536 {
+            return None;
+        }
+        let alloc = match tcx.global_alloc(alloc_id) {
+            mir::interpret::GlobalAlloc::Memory(a) => a,
+            mir::interpret::GlobalAlloc::Static(def_id) => {
+                if tcx.is_mutable_static(def_id) {
+                    return None;
+                }
+                tcx.eval_static_initializer(def_id).ok()?
+            }
+            _ => return None,
+        };
+        let inner = alloc.inner();
+        let end = offset.checked_add(count.checked_mul(esize)?)?;
+        if end > inner.len() {
+            return None;
+        }
+        let bytes = inner.inspect_with_uninit_and_ptr_outside_interpreter(offset..end);
+        let signed = ety.is_signed();
+        let mut out = Vec::with_capacity(count);
+        for i in 0..count {
+            let mut v: u128 = 0;
+            for k in 0..esize {
+                v |= (bytes[i * esize + k] as u128) << (8 * k);
+            }
+            if signed {
+                let sh = 128 - 8 * esize as u32;
+                let sv = ((v << sh) as i128) >> sh;
+                out.push(J::s(format!("{}", sv)));
+            } else {
+                out.push(J::s(format!("{}", v)));
+            }
+        }
+        Some(out)
     }
 
     fn operand(&self, op: &Operand<'tcx>) -> J {
